@@ -14,7 +14,9 @@ package main
 
 import (
 	"fmt"
+	"path"
 	"sort"
+	"strconv"
 	"strings"
 )
 
@@ -269,6 +271,13 @@ func (c *Chooser) eqStr(a, b string) bool {
 	if x > y {
 		x, y = y, x
 	}
+	if _, decided := c.memo["eq("+x+","+y+")"]; !decided && c.constContradicts(a, b) {
+		// a predicate already valued on the symbolic string disagrees with
+		// what it yields on the constant: only "different" is a state of the
+		// world (eq("/", name) with path.IsAbs(name)=false is not)
+		c.strs.setNe(a, b)
+		return false
+	}
 	if _, decided := c.memo["eq("+x+","+y+")"]; !decided && c.prefixOfTrimmedDenied(a, b) {
 		// a string is a prefix of itself with a suffix trimmed: an atom
 		// HasPrefix(A, TrimSuffix(B, ·)) already valued false leaves only
@@ -423,6 +432,48 @@ func (c *Chooser) prefixOfTrimmedDenied(a, b string) bool {
 			for k, v := range c.memo {
 				if v == 0 && strings.HasPrefix(k, pre) {
 					return true
+				}
+			}
+		}
+	}
+	return false
+}
+
+// constContradicts: one of a, b is a constant ("c:"), the other a symbolic
+// string ("s:") on which a unary predicate with literal arguments has been
+// valued otherwise than the constant makes it.
+func (c *Chooser) constContradicts(a, b string) bool {
+	var lit, k string
+	switch {
+	case strings.HasPrefix(a, "c:") && strings.HasPrefix(b, "s:"):
+		lit, k = a[2:], b[2:]
+	case strings.HasPrefix(b, "c:") && strings.HasPrefix(a, "s:"):
+		lit, k = b[2:], a[2:]
+	default:
+		return false
+	}
+	two := map[string]func(x, y string) bool{
+		"strings.Contains(":  strings.Contains,
+		"strings.HasPrefix(": strings.HasPrefix,
+		"strings.HasSuffix(": strings.HasSuffix,
+	}
+	for key, v := range c.memo {
+		if v != 0 && v != 1 {
+			continue
+		}
+		if key == "path.IsAbs("+k+")" {
+			if path.IsAbs(lit) != (v == 1) {
+				return true
+			}
+			continue
+		}
+		for pre, f := range two {
+			full := pre + k + ","
+			if strings.HasPrefix(key, full) && strings.HasSuffix(key, ")") {
+				if arg, err := strconv.Unquote(key[len(full) : len(key)-1]); err == nil {
+					if f(lit, arg) != (v == 1) {
+						return true
+					}
 				}
 			}
 		}
